@@ -1282,3 +1282,76 @@ def _values_at(self, o, blk, idx, depth=0):
 
 Body.reaching_defs = _reaching_defs
 Body.values_at = _values_at
+
+
+# ---------------------------------------------------------------------------
+# backward data slice (all definitions, not only single-definition chains)
+# ---------------------------------------------------------------------------
+def _data_slice(self, o, limit=400):
+    """leaves of the backward data-dependence slice of an operand inside this body:
+    set of ('param', name) | ('place', path) | ('call', callee) | ('const', text) | ('yield',) | ('local', n).
+    Every definition of every local on the way is followed (assign operands, call arguments and receivers);
+    control dependence is NOT part of the slice."""
+    out = set()
+    seen = set()
+    names, _ = self.names
+    argc = self.rec.get("argc", 0)
+    work = [o]
+    while work and len(seen) < limit:
+        x = work.pop()
+        if x["c"] == "const":
+            out.add(("const", self.const_name(x)))
+            continue
+        if x["c"] not in ("copy", "move"):
+            continue
+        p = x["p"]
+        l = p["l"]
+        if p["pr"] and any(e[0] in ("field", "downcast", "deref") for e in p["pr"]):
+            out.add(("place", self.place_path(p)))
+        rooted_in_param = 1 <= l <= argc or (l == 1 and self.kind != "fn")
+        if p["pr"] and rooted_in_param:
+            continue  # a field of a parameter / captured variable: a leaf
+        key = (l, tuple(e[1] for e in p["pr"] if e[0] == "field")[:1])
+        if key in seen:
+            continue
+        seen.add(key)
+        ds = []
+        for d in self.defs.get(l, []):
+            dp = d[3]["p"] if d[0] == "assign" else (d[3]["dest"] if d[0] == "call" else None)
+            if dp is not None and dp["pr"] and p["pr"]:
+                f1 = [e[1] for e in dp["pr"] if e[0] == "field"][:1]
+                f2 = [e[1] for e in p["pr"] if e[0] == "field"][:1]
+                if f1 and f2 and f1 != f2:
+                    continue  # another field of the same local
+            ds.append(d)
+        if not ds:
+            if 1 <= l <= argc:
+                out.add(("param", names.get(l, "_%d" % l)))
+            elif not p["pr"]:
+                out.add(("local", l))
+            continue
+        if 1 <= l <= argc:
+            out.add(("param", names.get(l, "_%d" % l)))
+        for d in ds:
+            if d[0] == "assign":
+                rv = d[3]["r"]
+                k = rv["k"]
+                if k in ("use", "cast", "unop"):
+                    work.append(rv["o"])
+                elif k == "binop":
+                    work.append(rv["a"])
+                    work.append(rv["b"])
+                elif k in ("ref", "copyderef", "rawptr", "discr", "len"):
+                    work.append({"c": "copy", "p": rv["p"]})
+                elif k == "agg":
+                    work.extend(rv["ops"])
+            elif d[0] == "call":
+                c = Call(self, d[1], d[3])
+                out.add(("call", c.callee))
+                work.extend(c.args)
+            else:
+                out.add(("yield",))
+    return out
+
+
+Body.data_slice = _data_slice
